@@ -240,8 +240,9 @@ def rule_r3(ctx) -> List[R.Inst]:
 # --------------------------------------------------------------------------- R4
 def rule_r4(ctx) -> List[R.Inst]:
     M = ctx.M
-    fn = M.fn(S.SET_META + "._write_metadata")
+    fn = M.nfn(S.SET_META + "._write_metadata", subst="alias")
     file = M.mods[fn.mod].rel
+    from .. import seqexpr as SE
     defs = {}
     for n in walk_no_nested(fn.node):
         if isinstance(n, ast.Assign) and isinstance(n.targets[0], ast.Name):
@@ -256,7 +257,8 @@ def rule_r4(ctx) -> List[R.Inst]:
             # decide with the row-order typestate (A5): both operands must carry the same order tag
             from .. import order as O
             sites = O.analyse_function(ctx, S.SET_META + "._write_metadata")
-            mine = [x for x in (sites if not isinstance(sites, Exception) else []) if x.kind == "pairing" and x.node is z]
+            mine = [x for x in (sites if not isinstance(sites, Exception) else []) if x.kind == "pairing" and (x.node is z or (
+                getattr(x.node, "lineno", -1), getattr(x.node, "col_offset", -1)) == (z.lineno, z.col_offset))]
             if mine:
                 tags = [t for t in mine[0].tags if t.kind != "scalar"]
                 if len(tags) == 2 and all(t.kind != "top" for t in tags):
@@ -273,7 +275,12 @@ def rule_r4(ctx) -> List[R.Inst]:
         q = d.args[0]
         # tm.beats returns query order (C10.R1), so the beats carry the row order of q's list
         base = unparse(q.value) if isinstance(q, ast.Attribute) else None
-        if base == unparse(b) and q.attr == "offset":
+        # the values: the list itself, or an element-wise unfiltered view of it (`(x.bpm for x in LIST)`)
+        alts = SE.describe(b, {})
+        b_base = unparse(b)
+        if alts and len(alts) == 1 and not next(iter(alts)).filters:
+            b_base = next(iter(alts)).base
+        if base == b_base and q.attr == "offset":
             insts.append(R.ok("C03.R4", key, file, z.lineno, idiom=f"beats of {base}.offset paired with {base} (same row order)"))
         else:
             insts.append(R.viol("C03.R4", key, file, z.lineno,
@@ -282,8 +289,18 @@ def rule_r4(ctx) -> List[R.Inst]:
     # beat positions in #BPMS / #STOPS: the text must resolve the snap grid.  round(x, 2) keeps 0.01 beat — a change on a 1/8 or 1/48
     # beat moves by up to 0.005 beat, and every later object by that times the jump in beat length, which exceeds 1/96 beat at the
     # local tempo for large tempo ratios
-    rounds = sorted((n for n in ast.walk(fn.node) if isinstance(n, ast.Call) and unparse(n.func) == "round" and len(n.args) == 2 and
-                     isinstance(n.args[1], ast.Constant) and "beat" in unparse(n.args[0])), key=lambda n: (n.lineno, n.col_offset))
+    # ... the round(...) applied to the first component of each zipped (beat, value) pair
+    rounds = []
+    for comp in ast.walk(fn.node):
+        if isinstance(comp, (ast.ListComp, ast.GeneratorExp)) and len(comp.generators) == 1 and comp.generators[0].iter in zips and \
+                isinstance(comp.generators[0].target, ast.Tuple) and comp.generators[0].target.elts and \
+                isinstance(comp.generators[0].target.elts[0], ast.Name):
+            bv = comp.generators[0].target.elts[0].id
+            for n in ast.walk(comp.elt):
+                if isinstance(n, ast.Call) and unparse(n.func) == "round" and len(n.args) == 2 and isinstance(n.args[1], ast.Constant) and \
+                        any(isinstance(x, ast.Name) and x.id == bv for x in ast.walk(n.args[0])):
+                    rounds.append(n)
+    rounds.sort(key=lambda n: (n.lineno, n.col_offset))
     for ix_, n in enumerate(rounds):
         if True:
             d_ = n.args[1].value
@@ -312,7 +329,7 @@ def chart_header_tables(ctx):
             idxs = [i for i in idxs if i and i[0] == arg]
             if len(idxs) == 1:
                 rt[idxs[0][1]] = (C.self_attr(n.targets[0]), n)
-    wfn = M.fn(S.SMMAP + ".write")
+    wfn = M.nfn(S.SMMAP + ".write")
     hdr = None
     for n in walk_no_nested(wfn.node):
         if isinstance(n, ast.Assign) and isinstance(n.value, ast.List) and any(
@@ -367,7 +384,7 @@ def rule_r7(ctx) -> List[R.Inst]:
     from .. import sym
     M = ctx.M
     rid = "C03.R7"
-    wr = M.fn(S.SMMAP + ".write")
+    wr = M.nfn(S.SMMAP + ".write")
     file = M.mods[wr.mod].rel
     insts = []
     stores = {}
@@ -452,7 +469,7 @@ def rule_r6(ctx) -> List[R.Inst]:
     """row width: every note row of a chart has as many characters as the chart type has keys"""
     M = ctx.M
     rid = "C03.R6"
-    wr = M.fn(S.SMMAP + ".write")
+    wr = M.nfn(S.SMMAP + ".write")
     file = M.mods[wr.mod].rel
     keys_defs = [n for n in walk_no_nested(wr.node) if isinstance(n, ast.Assign) and isinstance(n.targets[0], ast.Name)
                  and n.targets[0].id == "keys"]
